@@ -11,15 +11,16 @@ from ..layoutreplay import report, run_slices
 
 RULE = ("programs = (model shape, recipe of 1-2 name_mapping overlays) enumerated exhaustively by TLC per slice (A map x style x trim, "
         "B skip x only x None x private, C extra_in x extra_out, D as_list / list paths / gaps, E omit_default, F stacking of two "
-        "overlays); per program the model's probe family: every mapped key absent / ill-typed, every inner node of the wrong kind, "
+        "overlays, G output-only fields (field(init=False)) in the middle / at the end of the definition order x as_list x map x skip x "
+        "omit_default x forbid); per program the model's probe family: every mapped key absent / ill-typed, every inner node of the wrong kind, "
         "int-keyed mappings for list nodes, unknown keys at every dict node, and every subset of optional fields at default for "
         "dumping; x 3 debug modes; non-trivial = every program (each is a distinct generated loader/dumper pair)")
 
 
 def slices_for(ctx: Ctx):
     if ctx.tier == "thorough":
-        return ["A", "B", "C", "D", "E", "F"], {"F": 2, "C": 1}
-    return ["A", "B", "C", "D", "E", "F"], {"F": 2}
+        return ["A", "B", "C", "D", "E", "F", "G"], {"F": 2, "C": 1}
+    return ["A", "B", "C", "D", "E", "F", "G"], {"F": 2}
 
 
 def run(ctx: Ctx) -> None:
